@@ -8,6 +8,7 @@ import (
 	"os"
 	"regexp"
 	"runtime"
+	"sort"
 	"strconv"
 	"strings"
 	"sync"
@@ -121,6 +122,8 @@ func TestProp(t *testing.T) {
 			wedged := mutexWedged()
 			if len(wedged) > 0 {
 				rec.Violate("mutex-wedged", firstFrame(wedged[0]), "case made no progress for %v of wall time; %d pion/turn goroutine(s) are parked in Mutex.Lock (a mutex was leaked or deadlocked): %s", wall, len(wedged), strings.Join(wedged, " || "))
+			} else if spin := librarySpin(); len(spin) > 0 {
+				rec.Violate("library-spin", firstFrame(spin[0]), "case made no progress for %v of wall time; %d pion/turn goroutine(s) were running or runnable in every one of 5 samples taken 200 ms apart (busy loop): %s", wall, len(spin), strings.Join(spin, " || "))
 			} else {
 				rec.Inconclusive("case exceeded its wall budget of %v without a goroutine parked on a library mutex", wall)
 			}
@@ -277,6 +280,58 @@ func inBubble(t *testing.T, body func(t *testing.T)) { runBubble(t, curRec, body
 
 var curRec *sim.Rec
 
+// librarySpin lists goroutines that have a pion/turn frame innermost (below runtime frames) and
+// are running or runnable in each of five stack samples 200 ms apart: a busy loop in the library.
+func librarySpin() []string {
+	seen := map[string]int{}
+	frame := map[string]string{}
+	const samples = 5
+	for k := 0; k < samples; k++ {
+		buf := make([]byte, 8<<20)
+		buf = buf[:runtime.Stack(buf, true)]
+		for _, g := range bytes.Split(buf, []byte("\n\n")) {
+			hdr, _, _ := bytes.Cut(g, []byte("\n"))
+			if !bytes.Contains(hdr, []byte("[running")) && !bytes.Contains(hdr, []byte("[runnable")) {
+				continue
+			}
+			id, _, _ := bytes.Cut(hdr, []byte(" ["))
+			var frames []string
+			harnessInner := false
+			first := true
+			for _, l := range strings.Split(string(g), "\n")[1:] {
+				if strings.HasPrefix(l, "\t") || strings.HasPrefix(l, "created by") || strings.HasPrefix(l, "runtime.") || strings.HasPrefix(l, "time.") || strings.HasPrefix(l, "sync.") || strings.HasPrefix(l, "internal/") {
+					continue
+				}
+				if first && strings.Contains(l, "verifharness") {
+					harnessInner = true
+				}
+				first = false
+				if m := pionFn.FindString(l); m != "" && !strings.Contains(l, "verifharness") {
+					frames = append(frames, strings.TrimPrefix(m, "github.com/pion/turn/v5"))
+				}
+			}
+			if len(frames) == 0 || harnessInner {
+				continue
+			}
+			if len(frames) > 3 {
+				frames = frames[:3]
+			}
+			seen[string(id)]++
+			frame[string(id)] = strings.Join(frames, " < ")
+		}
+		time.Sleep(200 * time.Millisecond)
+	}
+	var out []string
+	for id, n := range seen {
+		if n == samples {
+			out = append(out, frame[id])
+		}
+	}
+	sort.Strings(out)
+
+	return out
+}
+
 // mutexWedged lists goroutines with a pion/turn frame that are parked in sync.(*Mutex).Lock or
 // sync.(*RWMutex).Lock/RLock, as "frame < frame".
 func mutexWedged() []string {
@@ -289,16 +344,23 @@ func mutexWedged() []string {
 			continue
 		}
 		var frames []string
-		for _, l := range strings.Split(string(g), "\n") {
-			if strings.Contains(l, "verifharness") || strings.HasPrefix(l, "\t") || strings.HasPrefix(l, "created by") {
+		owner := "" // the innermost frame that is neither runtime nor sync: who asked for the lock
+		for _, l := range strings.Split(string(g), "\n")[1:] {
+			if strings.HasPrefix(l, "\t") || strings.HasPrefix(l, "created by") {
+				continue
+			}
+			if owner == "" && !strings.HasPrefix(l, "runtime.") && !strings.HasPrefix(l, "sync.") && !strings.HasPrefix(l, "internal/") {
+				owner = l
+			}
+			if strings.Contains(l, "verifharness") {
 				continue
 			}
 			if m := pionFn.FindString(l); m != "" {
 				frames = append(frames, strings.TrimPrefix(m, "github.com/pion/turn/v5"))
 			}
 		}
-		if len(frames) == 0 {
-			continue
+		if len(frames) == 0 || strings.Contains(owner, "verifharness") {
+			continue // (a lock of the harness itself, contended for a moment, is not the library's)
 		}
 		if len(frames) > 3 {
 			frames = frames[:3]
